@@ -272,6 +272,15 @@ RS_Frame == /\ UNCHANGED <<bseq, nextB, inb, cube, lvl, blob, shell, slv, sbl, n
             /\ pc' = "out" /\ run' = [run EXCEPT !.active = FALSE] /\ neffMet' = FALSE
 Resume == pc = "out" /\ RS_Frame /\ UNCHANGED ret /\ tq' = tq
 
+\* Sampler(resume=True) when NO checkpoint exists yet (no batch was completed): a fresh sampler.  Legal only if no
+\* evaluation is lost by it.
+RST_Pre == pc = "out" /\ nlike = 0
+RST_Effect == /\ bseq' = <<>> /\ inb' = <<>> /\ cube' = <<>> /\ lvl' = <<>> /\ blob' = <<>>
+              /\ shell' = <<>> /\ slv' = <<>> /\ sbl' = <<>> /\ tq' = <<>> /\ nsamp' = <<>> /\ nsampExp' = <<>>
+              /\ endExp' = <<>> /\ lmin' = <<>> /\ explored' = FALSE /\ discard' = FALSE /\ nlike' = 0
+              /\ pc' = "out" /\ run' = [run EXCEPT !.active = FALSE] /\ neffMet' = FALSE
+Restart == RST_Pre /\ RST_Effect /\ UNCHANGED <<nextB, ret>> /\ updIter' = 0 /\ likeIter' = 0
+
 (* =========================== model-checking Next =========================== *)
 \* signatures a fresh point of shell si can have: cube, bound si, any earlier bounds
 FreshSigs(si) == {sg \cup {bseq[1], bseq[si]} : sg \in SUBSET {bseq[j] : j \in 2..(si - 1)}}
@@ -298,6 +307,7 @@ NextRun ==
   \/ RunReturn
   \/ \E d \in BOOLEAN : SetDiscard(d)
   \/ Resume
+  \/ Restart
 InitCore == /\ bseq = <<>> /\ nextB = 1 /\ inb = <<>> /\ cube = <<>> /\ lvl = <<>> /\ blob = <<>>
             /\ shell = <<>> /\ slv = <<>> /\ sbl = <<>>
             /\ tq = <<>> /\ nsamp = <<>> /\ nsampExp = <<>> /\ endExp = <<>> /\ lmin = <<>>
